@@ -347,7 +347,7 @@ func (r *Run) checkExtAuth() {
 							}
 						}
 						switch out.Kind {
-						case "deny", "auth":
+						case "deny", "auth", "redirect": // (oauth answers a failed authentication with a redirect to the sign-in page)
 							if out.Kind == "deny" && len(out.Intercepts) == 0 {
 								r.probe("auth_denied_outright")
 							}
@@ -368,6 +368,16 @@ func (r *Run) checkExtAuth() {
 								if msg := r.checkInterceptTarget(disk, ing, url, out); msg != "" {
 									r.violate(&Violation{Property: "C18", Oracle: "intercept-target", Class: "wrong-auth-service",
 										Witness: fmt.Sprintf("%s (auth-url %s): %s; %s", req, url, msg, out)})
+									return
+								}
+							}
+							if len(out.Intercepts) > 0 && url == "" && oauth != "" && exp.accept[0].host != "" &&
+								(out.Backend == "" || r.backendOfIngressPath(ing, svc, port, out.Backend)) {
+								// oauth: the authentication request goes to a backend that publishes the oauth2 prefix
+								// in the namespace of the declaration (any of them, if several do)
+								if msg := r.checkOAuthTarget(disk, ing, out); msg != "" {
+									r.violate(&Violation{Property: "C18", Oracle: "intercept-target", Class: "wrong-auth-service",
+										Witness: fmt.Sprintf("%s (oauth %s of %s): %s; %s", req, oauth, ingKey, msg, out)})
 									return
 								}
 							}
@@ -620,4 +630,49 @@ func (r *Run) aliasOnlyOf(alias, key string) bool {
 		}
 	}
 	return true
+}
+
+// checkOAuthTarget: lua.auth-intercept <backend> /oauth2/auth ...: the backend is one that a selected ingress of the
+// same namespace publishes under the oauth2 prefix. A name that no backend carries is a denial (auth-request.lua
+// answers 500), as for auth-url.
+func (r *Run) checkOAuthTarget(c *HAConfig, ing *networking.Ingress, out Outcome) string {
+	f := strings.Fields(out.Intercepts[len(out.Intercepts)-1])
+	if len(f) < 2 {
+		return "malformed auth-intercept call"
+	}
+	target := f[0]
+	if c.Backends[target] == nil {
+		r.probe("auth_intercept_dangling_denied")
+		return ""
+	}
+	prefix := strings.TrimRight(ing.Annotations[annPrefix+"oauth-uri-prefix"], "/")
+	if prefix == "" {
+		prefix = "/oauth2"
+	}
+	r.probe("oauth_target_checked")
+	var published []string
+	for _, other := range r.selectedIngresses() {
+		if other.Namespace != ing.Namespace {
+			continue
+		}
+		for _, rule := range other.Spec.Rules {
+			if rule.HTTP == nil {
+				continue
+			}
+			for _, p := range rule.HTTP.Paths {
+				if strings.TrimRight(p.Path, "/") != prefix {
+					continue
+				}
+				svc, port, ok := backendPort(&p.Backend)
+				if !ok {
+					continue
+				}
+				published = append(published, other.Namespace+"/"+other.Name+":"+svc)
+				if r.backendOfIngressPath(other, svc, port, target) {
+					return ""
+				}
+			}
+		}
+	}
+	return fmt.Sprintf("the authentication request goes to backend %s, the ingresses of namespace %s publish %s on %v", target, ing.Namespace, prefix, published)
 }
